@@ -279,7 +279,7 @@ def readExpDigits : Str → Nat → Nat × Str
   | [], e => (e, [])
   | c :: t, e =>
     if c == '_' then readExpDigits t e
-    else if isDigit c then readExpDigits t (if e < 100000 then e * 10 + (c.toNat - 48) else e)
+    else if isDigit c then readExpDigits t (if e < 10000 then e * 10 + (c.toNat - 48) else e)
     else (e, c :: t)
 
 /-- outcome of parsing: `none` = syntax error; `some none` = range error; `some (some x)` = value -/
